@@ -23,15 +23,17 @@ func (t *tape) node(v float64, p0 int, d0 float64, p1 int, d1 float64) int {
 	return len(t.v) - 1
 }
 
-func (t *tape) leaf(v float64) int     { return t.node(v, -1, 0, -1, 0) }
-func (t *tape) add(a, b int) int       { return t.node(t.v[a]+t.v[b], a, 1, b, 1) }
-func (t *tape) sub(a, b int) int       { return t.node(t.v[a]-t.v[b], a, 1, b, -1) }
-func (t *tape) mul(a, b int) int       { return t.node(t.v[a]*t.v[b], a, t.v[b], b, t.v[a]) }
-func (t *tape) div(a, b int) int       { return t.node(t.v[a]/t.v[b], a, 1/t.v[b], b, -t.v[a]/(t.v[b]*t.v[b])) }
+func (t *tape) leaf(v float64) int { return t.node(v, -1, 0, -1, 0) }
+func (t *tape) add(a, b int) int   { return t.node(t.v[a]+t.v[b], a, 1, b, 1) }
+func (t *tape) sub(a, b int) int   { return t.node(t.v[a]-t.v[b], a, 1, b, -1) }
+func (t *tape) mul(a, b int) int   { return t.node(t.v[a]*t.v[b], a, t.v[b], b, t.v[a]) }
+func (t *tape) div(a, b int) int {
+	return t.node(t.v[a]/t.v[b], a, 1/t.v[b], b, -t.v[a]/(t.v[b]*t.v[b]))
+}
 func (t *tape) scale(a int, c float64) int { return t.node(c*t.v[a], a, c, -1, 0) }
 func (t *tape) addc(a int, c float64) int  { return t.node(t.v[a]+c, a, 1, -1, 0) }
-func (t *tape) exp(a int) int          { e := math.Exp(t.v[a]); return t.node(e, a, e, -1, 0) }
-func (t *tape) log(a int) int          { return t.node(math.Log(t.v[a]), a, 1/t.v[a], -1, 0) }
+func (t *tape) exp(a int) int              { e := math.Exp(t.v[a]); return t.node(e, a, e, -1, 0) }
+func (t *tape) log(a int) int              { return t.node(math.Log(t.v[a]), a, 1/t.v[a], -1, 0) }
 func (t *tape) tanh(a int) int {
 	y := math.Tanh(t.v[a])
 	c := math.Cosh(t.v[a])
